@@ -278,3 +278,24 @@ Proof.
   apply (ex_package_gen ex_new (ex_events 0) (ex_cx 2000));
     [exact ex_new_reachable | apply ex_events_ok; lia | reflexivity | lia | exact ex_check_0].
 Qed.
+
+(* the retransmission step on the first example: polled at the timer's deadline (t = 1002 s/1000)
+   the three octets go out again from SND.UNA = 1001 and the timer is re-armed with the doubled
+   timeout *)
+Definition ex_rto_step : option (Z * Z * Z * timer * Z) :=
+  match ex_new with
+  | Ok s0 =>
+      match tcp_run s0 (ex_events 1000) with
+      | Ok s =>
+          match tcp_dispatch (ex_cx 1002000) s true with
+          | Ok (s', DSent (_, r), _) =>
+              Some (r_seq_number r, l_len (r_payload r), repr_segment_len r, s_timer s', s_local_seq_no s')
+          | _ => None
+          end
+      | _ => None
+      end
+  | _ => None
+  end.
+
+Theorem example_rto_step : ex_rto_step = Some (1001, 3, 3, TRetransmit 3002000, 1001).
+Proof. vm_compute. reflexivity. Qed.
